@@ -449,6 +449,11 @@ xdr_NC_var(XDR *xdrs, NC_var **vpp)
     if (!xdr_NC_array(xdrs, &((*vpp)->attrs)))
         return FALSE;
 
+    if (xdrs->x_op == XDR_ENCODE) {
+        temp_type = (int)(*vpp)->type;
+        temp_len  = (unsigned)(*vpp)->len;
+    }
+
     if (!hdf_xdr_int(xdrs, &temp_type)) {
         return FALSE;
     }
